@@ -268,6 +268,9 @@ def ite(g, a, b):
     if is_int(a) and is_int(b):
         if isinstance(a, CI) and isinstance(b, CI) and a == b:
             return a
+        h = _hoist_xor(g, a, b)
+        if h is not None:
+            return h
         return z3.If(g, bv(a), bv(b))
     if is_bool(a) and is_bool(b):
         if isinstance(a, bool) and isinstance(b, bool):
@@ -310,6 +313,38 @@ def ite(g, a, b):
     raise Unsupported('ite of %r / %r' % (type(a).__name__, type(b).__name__))
 
 
+def _hoist_xor(g, a, b):
+    """ite(g, b ^ w, b) -> b ^ ite(g, w, 0)   (and the mirrored form): keeps XOR accumulators flat across joins"""
+    if isinstance(a, z3.BitVecRef) and z3.is_app_of(a, z3.Z3_OP_BXOR) and a.num_args() == 2:
+        B = bv(b)
+        if a.arg(0).eq(B):
+            return B ^ z3.If(g, a.arg(1), z3.BitVecVal(0, B.size()))
+        if a.arg(1).eq(B):
+            return B ^ z3.If(g, a.arg(0), z3.BitVecVal(0, B.size()))
+    if isinstance(b, z3.BitVecRef) and z3.is_app_of(b, z3.Z3_OP_BXOR) and b.num_args() == 2:
+        A = bv(a)
+        ng = z3.Not(g)
+        if b.arg(0).eq(A):
+            return A ^ z3.If(ng, b.arg(1), z3.BitVecVal(0, A.size()))
+        if b.arg(1).eq(A):
+            return A ^ z3.If(ng, b.arg(0), z3.BitVecVal(0, A.size()))
+    return None
+
+
+def xor_summands(t):
+    """flatten a (nested) bvxor term into its list of summands, left to right"""
+    out = []
+    stack = [t]
+    while stack:
+        x = stack.pop()
+        if z3.is_app_of(x, z3.Z3_OP_BXOR):
+            for i in reversed(range(x.num_args())):
+                stack.append(x.arg(i))
+        else:
+            out.append(x)
+    return out
+
+
 def seq_ite(g, a, b):
     ea, eb = a.ents, b.ents
     k = 0
@@ -331,3 +366,56 @@ def _same_guard(x, y):
     if isinstance(x, bool) and isinstance(y, bool):
         return x == y
     return False
+
+
+class UFArr:
+    """(multi-dimensional) table whose entries are applications of an uninterpreted function to the indices"""
+    __slots__ = ('fn', 'nidx', 'idxs')
+
+    def __init__(self, fn, nidx, idxs=()):
+        self.fn, self.nidx, self.idxs = fn, nidx, tuple(idxs)
+
+    def index_step(self, idx):
+        i = bv(idx)
+        if i.size() != 64:
+            i = z3.ZeroExt(64 - i.size(), i)
+        idxs = self.idxs + (i,)
+        if len(idxs) == self.nidx:
+            return self.fn(*idxs)
+        return UFArr(self.fn, self.nidx, idxs)
+
+    def ite_with(self, g, other):
+        if self.fn is other.fn and self.idxs == other.idxs:
+            return self
+        raise Unsupported('ite of UF tables')
+
+
+class KeyLog:
+    """Vec<ZKey> used as the record of earlier positions: an unknown older part, abstracted to its membership
+    predicate `base` (SMT array key -> Bool), followed by the explicitly pushed keys `ents` (64-bit terms)."""
+    __slots__ = ('base', 'ents')
+
+    def __init__(self, base, ents=()):
+        self.base, self.ents = base, tuple(ents)
+
+    def contains(self, kb):
+        return b_or(lift(z3.simplify(z3.Select(self.base, kb))) if False else z3.Select(self.base, kb), *[e == kb for e in self.ents])
+
+    def ite_with(self, g, other):
+        if len(self.ents) != len(other.ents):
+            raise Unsupported('merging position logs of different length')
+        base = self.base if self.base.eq(other.base) else z3.If(g, self.base, other.base)
+        return KeyLog(base, tuple(a if a.eq(b) else z3.If(g, a, b) for a, b in zip(self.ents, other.ents)))
+
+    def push_model(self, ctx, p, v):
+        ctx.write(p, KeyLog(self.base, self.ents + (bv(v[0]),)))
+
+    def pop_model(self, ctx, p):
+        from .models import some
+        if not self.ents:
+            raise Unsupported('pop from the unknown older part of the position log')
+        ctx.write(p, KeyLog(self.base, self.ents[:-1]))
+        return some((self.ents[-1],))
+
+    def __repr__(self):
+        return 'KeyLog(+%d)' % len(self.ents)
